@@ -99,7 +99,30 @@ let op_lex (args : str list) : str list =
         S.concat ";" (List.map (fun (s, e) -> Printf.sprintf "%d %d" (int_of_n s) (int_of_n e)) errs) ]
   | [] -> ["bad-args"]
 
-let ops : (str * (str list -> str list)) list ref = ref [ ("lex", op_lex) ]
+(* semantic tokens: the model's response (relative data, or null) and, independently of
+   lsp_project.rs, every lexeme of the text with the classes acceptable for it *)
+let op_semtok (args : str list) : str list =
+  match args with
+  | h :: _ ->
+      let t = text_of_hex h in
+      let resp =
+        match lsp_semantic_tokens t with
+        | None -> "null"
+        | Some l ->
+            S.concat " " (List.map (fun ((((a, b), c), d), e) ->
+              Printf.sprintf "%d %d %d %d %d" (int_of_n a) (int_of_n b) (int_of_n c) (int_of_n d) (int_of_n e)) l) in
+      let items = lex_items (preprocess t) in
+      let toks = tokens_of items in
+      let lexemes =
+        S.concat ";" (List.map (fun tk ->
+          Printf.sprintf "%s %d %d %d %s %s" (kind_name tk.t_kind) (int_of_n tk.t_line) (int_of_n tk.t_col)
+            (int_of_n (blen tk.t_text))
+            (match allowed_classes tk.t_kind with [] -> "-" | l -> S.concat "|" (List.map string_of_coq l))
+            (if must_highlight tk.t_kind then "1" else "0")) toks) in
+      [ (if in_domain t then "1" else "0"); resp; lexemes; S.concat " " (List.map string_of_coq legend) ]
+  | [] -> ["bad-args"]
+
+let ops : (str * (str list -> str list)) list ref = ref [ ("lex", op_lex); ("semtok", op_semtok) ]
 
 
 let () =
